@@ -177,3 +177,64 @@ func c03OnceHeadForms(r *Run) {
 		}
 	}
 }
+
+// c03LoopedHeadTwoVars: a chain head that carries a TWO-variable v-for - `(i, item) in items` - with a condition on the item, on the index, on
+// both, or on neither. The condition is evaluated per instance with both variables bound: the instances whose condition holds render, and the
+// chain's v-else renders exactly when none does.
+func c03LoopedHeadTwoVars(r *Run) {
+	lists := map[string][]any{
+		"mixed":     {map[string]any{"ok": true, "n": 1}, map[string]any{"ok": false, "n": 0}, map[string]any{"ok": true, "n": 3}},
+		"all-false": {map[string]any{"ok": false, "n": 0}, map[string]any{"ok": false, "n": 0}},
+		"all-true":  {map[string]any{"ok": true, "n": 2}, map[string]any{"ok": true, "n": 5}},
+		"empty":     {},
+	}
+	conds := []struct {
+		name, expr string
+		holds      func(i int, it map[string]any) bool
+	}{
+		{"on-item", "item.ok", func(i int, it map[string]any) bool { return it["ok"] == true }},
+		{"on-item-number", "item.n", func(i int, it map[string]any) bool { return it["n"] != 0 }},
+		{"on-item-compare", "item.n > 1", func(i int, it map[string]any) bool { return it["n"].(int) > 1 }},
+		{"on-index", "i != 1", func(i int, it map[string]any) bool { return i != 1 }},
+		{"on-both", "item.ok && i < 2", func(i int, it map[string]any) bool { return it["ok"] == true && i < 2 }},
+		{"on-neither", "flag", func(i int, it map[string]any) bool { return true }},
+		{"negated-item", "!item.ok", func(i int, it map[string]any) bool { return it["ok"] != true }},
+	}
+	for ln, lst := range lists {
+		for _, cd := range conds {
+			for _, order := range []string{"for-first", "if-first"} {
+				head := `<li v-for="(i, item) in items" v-if="` + cd.expr + `">[I{{ i }}-{{ item.n }}]</li>`
+				if order == "if-first" {
+					head = `<li v-if="` + cd.expr + `" v-for="(i, item) in items">[I{{ i }}-{{ item.n }}]</li>`
+				}
+				tpl := `<ul><li>[before]</li>` + head + `<li v-else>[none]</li><li>[after]</li></ul>`
+				want := []string{"before"}
+				any_ := false
+				for i, it := range lst {
+					if cd.holds(i, it.(map[string]any)) {
+						want = append(want, fmt.Sprintf("I%d-%v", i, it.(map[string]any)["n"]))
+						any_ = true
+					}
+				}
+				if !any_ {
+					want = append(want, "none")
+				}
+				want = append(want, "after")
+				d := map[string]any{"items": lst, "flag": true}
+				files := map[string]string{"p.vuego": tpl}
+				res := renderPage(files, "p.vuego", d)
+				var got []string
+				for _, m := range c03MarkRe.FindAllStringSubmatch(res.Out, -1) {
+					got = append(got, m[1])
+				}
+				name := fmt.Sprintf("looped-head-two-vars list=%s cond=%s %s", ln, cd.name, order)
+				c := &Case{Name: name, Key: name, Input: map[string]any{"stream": "operand-history", "tpl": tpl, "list": ln}, Impl: res.canon(), Oracle: &Verdict{OK: true}, Tags: []string{"stream:looped-head-two-vars", "cond:" + cd.name, "list:" + ln}}
+				if res.Err != "" || strings.Join(got, ",") != strings.Join(want, ",") {
+					c.Oracle = &Verdict{OK: false, Class: "chain-selection:looped-head-two-vars:" + cd.name, Detail: fmt.Sprintf("list %s: markers %v, expected %v (%s); template %q", ln, got, want, res.Err, tpl)}
+				}
+				r.Add(c)
+				pendingPages = append(pendingPages, pageCase("chain", files, nil, "p.vuego", d, "placement:looped-head-two-vars"))
+			}
+		}
+	}
+}
